@@ -638,6 +638,22 @@ func init() {
 		return tuple{list[pos], iface{}}
 	}
 
+	intrinsics["(*github.com/invopop/gobl/bill.Invoice).Calculate"] = func(fr *frame, args []value) value {
+		if f, ok := fr.i.run.ghostFlags["invoice.Calculate"]; ok {
+			if b, isB := f.(bool); isB && b {
+				return iface{}
+			}
+			return fr.i.opaqueError("calculation", iface{})
+		}
+		return notHandled{}
+	}
+	today := func(fr *frame, args []value) value {
+		// cal.Date{civil.Date{Year, Month, Day}}: an arbitrary fixed day (the clock is environment)
+		return structure{structure{2031, int(7), 9}}
+	}
+	intrinsics["github.com/invopop/gobl/cal.Today"] = today
+	intrinsics["github.com/invopop/gobl/cal.TodayIn"] = today
+
 	// errors / fmt: opaque error objects
 	intrinsics["fmt.Errorf"] = func(fr *frame, args []value) value {
 		var wrapped value = iface{}
